@@ -136,6 +136,8 @@ func main() {
 		modeC04()
 	case "c06":
 		modeC06()
+	case "c07":
+		modeC07()
 	default:
 		res.InfraError("unknown mode %s", mode)
 	}
@@ -154,6 +156,18 @@ func replayMode() {
 	}
 	rp := art.Violation.Replay
 	res.Part = rp.Mode
+	if rp.Mode == "c07" {
+		var a Attack
+		json.Unmarshal([]byte(rp.Extra), &a)
+		x, err := vrt.Replay(baseCfg(), rp.Choices, func() { runAttack(a) })
+		if err != nil {
+			res.InfraError("%v", err)
+			return
+		}
+		res.Eval()
+		checkC07(a, x)
+		return
+	}
 	p, err := prepare(rp.Case)
 	if err != nil {
 		res.InfraError("prepare: %v", err)
